@@ -1674,6 +1674,9 @@ DECODE_MORE:
         else
         {
             psTraceErrr("Encoding error. Possible wrong flight messageSize\n");
+            /* Whatever was to be sent (possibly a fatal alert) is lost:
+               the session is over. */
+            ssl->flags |= SSL_FLAGS_ERROR;
             return PS_PROTOCOL_FAIL;    /* error in our encoding */
         }
         goto DECODE_MORE;
